@@ -15,7 +15,7 @@ Arguments Panic {A}.
 
 Definition pkt := list Z.
 Definition byte (p : list Z) (i : nat) : Z := nth i p 0.
-Definition zlen (p : list Z) : Z := Z.of_nat (length p).
+Definition zlen {A} (p : list A) : Z := Z.of_nat (length p).
 Definition sn_of (p : pkt) : Z := byte p 2 * 256 + byte p 3.
 Definition ssrc_bytes (p : pkt) : list Z := [byte p 8; byte p 9; byte p 10; byte p 11].
 
